@@ -34,6 +34,8 @@ var c04Probes = []struct{ name, body, params string }{
 	{"content-blocks", "{let $o}<h1>{$s}</h1>{let $i1}[one]{/let}{let $i2}[two{let $i3}(three{$a}){/let}{$i3}{$i3}]{/let}{$i1}{$i2}{$i1}" +
 		"{call .probe_callee}{param s}{let $i4}x{$s}{/let}{$i4}{$i1}{/param}{param b}{let $i5}y{/let}{let $i6}z{/let}{$i6}{$i5}{/param}{/call}{/let}{$o}|{$o|noAutoescape}|" +
 		"{log}{let $l1}a{/let}{let $l2}b{/let}{$l1}{$l2}{/log}{foreach $i in $ls}{let $w}<{$i}{let $v}({$i}){/let}{$v}>{/let}{$w|noAutoescape}{let $u}{$w}{/let}{$u|noAutoescape}{/foreach}", "s a ls"},
+	{"empty-blocks", "[{switch 1}{case 1}{case 2}two{default}other{/switch}|{switch 'x'}{case 'y'}{default}{/switch}|{switch 2}{case 1}{case 2, 3}{default}d{/switch}|{if true}{else}no{/if}|{if false}{elseif true}{else}no{/if}|" +
+		"{foreach $i in [1]}{ifempty}e{/foreach}|{foreach $i in $e}{ifempty}{/foreach}|{let $z}{/let}{$z}|{call .probe_callee}{param s}{/param}{/call}|{msg desc=\"d\"}{plural 1}{case 1}{default}many{/plural}{/msg}]", "e"},
 	{"msg-plain", "{msg desc=\"d\"}Hello <b>{$s}</b>, you have {$a} items{/msg}{msg desc=\"p\"}{plural $a}{case 0}none{case 1}one{default}{$a} many{/plural}{/msg}", "s a"},
 }
 
@@ -62,7 +64,7 @@ func init() {
 		ID:    "C04",
 		Level: "translation_validation",
 		Rule: "programs = seeded bundles in the common subset (typed generator: numeric operands for arithmetic and ordering, boolean operands for and/or/not, same-kind equality, ints within 2^53, " +
-			"scalars printed, in-range indexes, iteration over lists; all commands, call forms, msg/plural, globals, $ij, autoescape modes, directives except escapeUri/escapeJsString/json) plus 16 " +
+			"scalars printed, in-range indexes, iteration over lists; all commands, call forms, msg/plural, globals, $ij, autoescape modes, directives except escapeUri/escapeJsString/json) plus 17 " +
 			"hand-written probe templates and, in every fourth case, a template printing float literals and float data from every decade of float64 with their sums, differences, products and quotients; each is translated by soyjs.Write (ES5), loaded with soyutils into a JS engine and called with the same data and $ij (2-4 data maps), with and without a " +
 			"translation bundle; the returned string must equal byte for byte what Tofu.Render writes. Renders the Go backend fails are dropped. distinct = distinct (sources, data, bundle?); non-trivial = all executed on both sides",
 		N: func(tier string) int {
@@ -129,7 +131,7 @@ func init() {
 				ctx.Cell("cmd:" + k)
 			}
 			ctx.Obs("programs", 1)
-			tr := translationsFor(reg)
+			tr := translationsEmptying(reg)
 			for pass, withMsgs := range []bool{false, true} {
 				if withMsgs && !kinds["Msg"] && i%4 != 0 {
 					continue
